@@ -48,6 +48,9 @@ THEOREMS = [
     "XalanModel.Props.C19.list_clear_guarded_does_not_allocate",
     "XalanModel.Props.C19.list_clear_allocates_counterexample",
     "XalanModel.Props.C19.list_throwing_copy_counterexample",
+    "XalanModel.Props.C19.arena_balanced_and_failure_contained_partial",
+    "XalanModel.Props.C19.arena_uncommitted_slot_counterexample",
+    "XalanModel.Props.C19.deque_null_block_counterexample",
     "XalanModel.Props.C19.guard_idiom_sound",
     "XalanModel.Props.C19.reserve_before_create_sound",
     "XalanModel.Props.C19.create_then_push_leaks_counterexample",
@@ -56,7 +59,7 @@ THEOREMS = [
 CORPUS_DIR = os.path.join(common.ROOT, "gen", "corpus", "c19")
 
 # (name, api) — fixed scenario set: known findings are keyed by call site, so the inputs are not randomised
-QUICK_SCENARIOS = [("s1", "split"), ("s2", "direct"), ("s3", "split"), ("s4", "direct")]
+QUICK_SCENARIOS = [("s1", "split"), ("s2", "direct"), ("s3", "split"), ("s4", "direct"), ("s7", "split"), ("s8", "split")]
 THOROUGH_SCENARIOS = QUICK_SCENARIOS + [("s5", "split"), ("s6", "split"), ("s2", "split"), ("s5", "direct")]
 PHASES = ["ctor", "compile", "parse", "transform", "destroy"]
 
@@ -87,6 +90,8 @@ def site_of(f):
             return "api.terminate[resume:%s]" % s
         return "api.terminate[?%s]" % "|".join(t[:4])
     fs = "|".join(f.get("failsite", "?").split("|")[:2])
+    if f.get("asan"):
+        return "api.asan[%s] after[%s]" % (f["asan"], fs)
     if "signal" in f:
         return "api.signal%s[%s] after[%s]" % (f["signal"], "|".join(f.get("sigstack", "?").split("|")[:2]), fs)
     return "api.died[%s] after[%s]" % (f.get("end", "?"), fs)
@@ -155,7 +160,42 @@ def gen_vec_ops(r, n):
     return ops
 
 
+def gen_arena_ops(r, n):
+    """ReusableArenaBlock<Boxed>: create / destroyObject over one block; indices follow the block's own free list
+    (simulated without refusals; after a refusal a destroy may name an empty slot: replied `ub`, a caller error)"""
+    size = r.range(1, 4)
+    ops = ["a new %d" % size]
+    free, objs = list(range(size)), []
+    for _ in range(n):
+        k = r.weighted([("create", 6), ("destroy", 3)])
+        if k == "create":
+            ops.append("a create %d" % r.range(0, 60))
+            if len(objs) < size and free:
+                objs.append(free.pop(0))
+        elif objs:
+            i = objs.pop(r.below(len(objs)))
+            ops.append("a destroy %d" % i)
+            free.insert(0, i)
+    ops.append("a free")
+    return ops
+
+
+def gen_deque_ops(r, n):
+    ops = ["d new %d" % r.range(1, 3)]
+    for _ in range(n):
+        k = r.weighted([("push", 8), ("size", 2)])
+        ops.append("d push %d" % r.range(0, 60) if k == "push" else "d size")
+    ops.append("d destroy")
+    return ops
+
+
 CONTAINER_CORPUS = [
+    # XalanDeque::pushNewIndexBlock: XalanConstruct refused after the null placeholder was pushed
+    (2, ["d new 2", "d push 1", "d size", "d destroy"]),
+    (6, ["d new 1", "d push 1", "d push 2", "d push 3", "d destroy"]),
+    # finding #6: constructor throws between allocateBlock() and commitAllocation(); ~ReusableArenaBlock destroys the slot
+    (3, ["a new 2", "a create 1", "a free"]),
+    (4, ["a new 3", "a create 1", "a create 2", "a create 3", "a destroy 0", "a create 4", "a free"]),
     # DESIGN §6 item 4: element copy throws on a freshly allocated node -> wild free-list link -> ~XalanList walks it
     (3, ["l pushb 1", "l destroy"]),
     # §6 item 5 mechanism: clear()/empty() on a never-used list allocate the sentinel
@@ -168,7 +208,7 @@ CONTAINER_CORPUS = [
 
 
 def container_part(ctx, r, model):
-    harness = common.build_harness("c19_containers", ["c19_containers.cpp"], flavor="hooks", sanitize=True, link_repo=False)
+    harness = common.build_harness("c19_containers", ["c19_containers.cpp"], flavor="hooks", sanitize=True, link_repo=False, extra=["-DNDEBUG"])
     work = os.path.join(common.CACHE, "work", "c19")
     os.makedirs(work, exist_ok=True)
     env = {"ASAN_OPTIONS": "detect_leaks=0:abort_on_error=0", "UBSAN_OPTIONS": "print_stacktrace=1"}
@@ -176,25 +216,28 @@ def container_part(ctx, r, model):
     # probe: which XalanList behaviour does the working tree have?
     probe = os.path.join(work, "probe.req")
     with open(probe, "w") as f:
-        f.write("new 0\nl clear\nnew 3\nl pushb 1\nl destroy\n")
+        f.write("new 0\nl clear\nnew 3\nl pushb 1\nl destroy\nnew 3\na new 2\na create 1\na free\nnew 2\nd new 2\nd push 1\nd size\n")
     rc, out = common.sh("%s < %s" % (harness, probe), env=env)
     pl = [l for l in out.split("\n") if l.strip()]
     clear_guard = 1 if len(pl) > 1 and "reqs=0" in pl[1] else 0
     next_init = 0 if len(pl) > 4 and pl[4].startswith("ub") else 1
-    ctx.extra["list_variant"] = {"clearGuard": clear_guard, "nextInit": next_init}
-    ctx.hist["variant:clearGuard=%d,nextInit=%d" % (clear_guard, next_init)] = 1
+    skip_pending = 0 if len(pl) > 8 and pl[8].startswith("ub") else 1
+    pop_null = 0 if len(pl) > 12 and pl[12].startswith("ub") else 1
+    ctx.extra["list_variant"] = {"clearGuard": clear_guard, "nextInit": next_init, "arenaSkipPending": skip_pending,
+                                 "dequePopNull": pop_null}
+    ctx.hist["variant:clearGuard=%d,nextInit=%d,arenaSkipPending=%d,dequePopNull=%d" % (clear_guard, next_init, skip_pending, pop_null)] = 1
 
     nseq, maxops = (60, 10) if not ctx.thorough else (400, 16)
     seqs = [(k, ops) for k, ops in CONTAINER_CORPUS]
     base = []
     for i in range(nseq):
-        ops = gen_list_ops(r, r.range(1, maxops)) if i % 2 == 0 else gen_vec_ops(r, r.range(1, maxops))
+        ops = (gen_list_ops, gen_vec_ops, gen_arena_ops, gen_deque_ops)[i % 4](r, r.range(1, maxops))
         base.append(ops)
     for ops in base:
         # every refusal index: an op makes at most 3 requests (+1 sentinel)
         for k in range(0, 3 * len(ops) + 3):
             seqs.append((k, ops))
-    lines, owner = ["cfg %d %d" % (clear_guard, next_init)], [-1]
+    lines, owner = ["cfg %d %d %d %d" % (clear_guard, next_init, skip_pending, pop_null)], [-1]
     for si, (k, ops) in enumerate(seqs):
         for o in ["new %d" % k] + ops:
             lines.append(o); owner.append(si)
@@ -226,9 +269,11 @@ def container_part(ctx, r, model):
         word = iv.split()[0] if iv.split() else ""
         if iv != mv:
             seen_bad.add(si)      # one report per log
-        if word == "ub" and not (o.startswith("l pop") or o == "v pop"):
+        if word == "ub" and not (o.startswith("l pop") or o == "v pop" or o.startswith("a destroy")):
             seen_bad.add(si)
-            ctx.fail("list.ub-after-throwing-copy: " + text if o == "l destroy" else "container.ub[%s]: %s" % (o, text),
+            ctx.fail("list.ub-after-throwing-copy: " + text if o == "l destroy" else
+                     "arena.ub-uncommitted-slot: " + text if o == "a free" else
+                     "deque.null-block-after-refused-construct: " + text if o.startswith("d ") else "container.ub[%s]: %s" % (o, text),
                      "the real template dereferences a wild pointer / crashes (child process died) at `%s`" % o, [("new %d" % k)] + ops)
         elif f.get("bad", "0") != "0":
             seen_bad.add(si)
@@ -243,7 +288,7 @@ def container_part(ctx, r, model):
         nontriv = k > 0 and len(ops) > 2
         ctx.case(nontrivial_key=("c", k, " ".join(ops)) if nontriv else None,
                  sample={"failAt": k, "ops": ops} if si in (len(CONTAINER_CORPUS), len(CONTAINER_CORPUS) + 7) else None,
-                 cls="container:" + ("list" if ops[0].startswith("l") else "vec"))
+                 cls="container:" + {"l": "list", "a": "arena", "d": "deque"}.get(ops[0][0], "vec"))
     ctx.extra["container_disagreements"] = disagreements[:5]
     ctx.oblige("correspondence: XalanList<Boxed>/XalanVector<long>/XalanConstruct (real templates, failing manager) = Lean model "
                "on every op log and every refusal index", "correspondence", agree, str(disagreements[:2]))
@@ -307,6 +352,7 @@ def api_part(ctx, r, model):
                     ctx.case(nontrivial_key=(tag, ph, exc, k), cls="fault:" + ph,
                              sample=inp if (k == 1 and ph == "compile") else None)
                     if f.get("end") != "exit0":
+                        ctx.extra.setdefault("_ended_abnormally", set()).add((tag, ph, k))
                         key = site_of(f) + " " + where
                         ctx.fail(key, "refusing allocation #%d of phase %s ends the process (%s): %s" % (
                             k, ph, f.get("end"), (f.get("terminate") or f.get("sigstack") or "")[:400]), inp)
@@ -378,8 +424,67 @@ def api_part(ctx, r, model):
     ctx.oblige("specification predicate via the Lean ledger (Ledger.replayAll/Balanced) agrees with the harness counters on "
                "every recorded trace", "correspondence", trace_ok, "\n".join(trace_detail[:5]))
     ctx.extra["fault_enumeration"] = stats
+    ctx.extra["_ended_abnormally"] = ctx.extra.get("_ended_abnormally", set())
     for k2, v2 in stats.items():
         ctx.hist["api:" + k2] = v2
+
+
+def asan_part(ctx, r):
+    """thorough tier: the same fault enumeration on an AddressSanitizer+UBSan build of the library, with a manager that
+    really frees (so use-after-free / double free inside the library is seen by ASan), for two scenarios.
+    Stack frames (hence finding keys) differ between the two builds (inlining), so a child that dies WITHOUT a sanitizer
+    report (std::terminate, plain SIGSEGV) is left to the plain-build enumeration, which reports and keys it; this part reports
+    sanitizer reports (heap-use-after-free, overflow, UBSan runtime errors), bad frees and fresh-transformer failures."""
+    already = ctx.extra.get("_ended_abnormally", set())
+    # the build runs sanitized tools of the tree (MsgCreator): LeakSanitizer must not fail the build
+    os.environ.setdefault("ASAN_OPTIONS", "detect_leaks=0")
+    ctx.build("asan")
+    exe = common.build_harness("c19_memmgr", ["c19_memmgr.cpp"], flavor="asan", sanitize=True, extra=["-ldl", "-rdynamic"])
+    env = {"ASAN_OPTIONS": "detect_leaks=0:abort_on_error=1:handle_segv=0:handle_abort=0", "UBSAN_OPTIONS": "halt_on_error=1",
+           "C19_REALLY_FREE": "1", "C19_STDERR_TO_PIPE": "1"}
+    jobs = str(max(2, min(16, common.NPROC)))
+    n_children = 0
+    for (name, api) in [("s1", "split"), ("s5", "split")]:
+        xsl, xml = name + ".xsl", name + ".xml"
+        tag = "%s-%s" % (name, api)
+        rc, out = common.sh([exe, "count", xsl, xml, api], cwd=CORPUS_DIR, env=env, timeout=600)
+        cl = [l for l in out.split("\n") if l.startswith("counts")]
+        if not cl:
+            ctx.oblige("ASan fault harness: counting run of " + tag, "correspondence", False, out[-1500:])
+            continue
+        c = fields(cl[0])
+        if c["live"] != "0" or c["foreign"] != "0" or c["double"] != "0":
+            ctx.fail("api.unbalanced[%s,asan]" % tag, "ASan build, no refusal: " + cl[0], {"scenario": tag, "k": 0})
+        for ph in PHASES:
+            n = int(c.get("n_" + ph, "0"))
+            if n == 0:
+                continue
+            rc, out = common.sh([exe, "sweep", xsl, xml, api, ph, "1", str(n), jobs, "oom"], cwd=CORPUS_DIR, env=env, timeout=3000)
+            for l in out.split("\n"):
+                if not l.startswith("k="):
+                    continue
+                f = fields(l)
+                n_children += 1
+                k = int(f["k"])
+                m = re.search(r"(AddressSanitizer: [\w-]+|runtime error: [^\n]{0,80})", l)
+                if m:
+                    f["asan"] = m.group(1).replace(" ", "_")
+                where = "%s/%s/asan/k=%d" % (tag, ph, k)
+                inp = {"scenario": tag, "xsl": xsl, "xml": xml, "api": api, "phase": ph, "k": k, "exc": "oom", "asan": True}
+                ctx.case(nontrivial_key=("asan", tag, ph, k), cls="fault-asan:" + ph)
+                if f.get("end") != "exit0" and not m:
+                    # std::terminate / plain signal without a sanitizer report: this is what the plain-build enumeration
+                    # reports and keys (frames and even indices differ between the two builds); counted, not re-reported
+                    kind = "same-index" if (tag, ph, k) in already else "other-index"
+                    ctx.hist["api:asan_died_without_report:" + kind] = ctx.hist.get("api:asan_died_without_report:" + kind, 0) + 1
+                elif f.get("end") != "exit0" or m:
+                    ctx.fail(site_of(f) + " " + where, "ASan build: refusing allocation #%d of %s: %s %s" % (
+                        k, ph, f.get("end"), (m.group(1) if m else f.get("terminate") or f.get("sigstack") or "")[:300]), inp)
+                elif f.get("foreign") != "0" or f.get("double") != "0" or f.get("fresh") != "ok":
+                    ctx.fail("api.badfree-or-fresh[%s] %s" % ("|".join(f.get("failsite", "?").split("|")[:2]), where), str(f)[:600], inp)
+    ctx.extra.pop("_ended_abnormally", None)
+    ctx.hist["api:asan_children"] = n_children
+    ctx.oblige("ASan fault enumeration ran (children > 0)", "correspondence", n_children > 0, "no child reported")
 
 
 def run(ctx):
@@ -401,6 +506,9 @@ def run(ctx):
     r = Rng(ctx.seed)
     container_part(ctx, r, model)
     api_part(ctx, r, model)
+    if ctx.thorough:
+        asan_part(ctx, r)
+    ctx.extra.pop("_ended_abnormally", None)
     ctx.exhaustive = True   # in k: every allocation index of every phase of the scenario set; not in scenarios
 
 
@@ -425,7 +533,7 @@ def replay(ctx, path):
     if isinstance(inp, list):
         common.lake_build(["xm_c19"])
         model = ctx.exe("xm_c19")
-        harness = common.build_harness("c19_containers", ["c19_containers.cpp"], flavor="hooks", sanitize=True, link_repo=False)
+        harness = common.build_harness("c19_containers", ["c19_containers.cpp"], flavor="hooks", sanitize=True, link_repo=False, extra=["-DNDEBUG"])
         work = os.path.join(common.CACHE, "work", "c19")
         os.makedirs(work, exist_ok=True)
         req = os.path.join(work, "replay.req")
